@@ -296,6 +296,20 @@ def small_shapes(n):
             yield ns, list(roots)
 
 
+def euler_walk(n):
+    """a closed walk over 0..n-1 in which every ordered pair (y, z), y = z included, occurs exactly once as
+    consecutive elements (Hierholzer on the complete digraph with loops): n*n + 1 elements"""
+    nxt = {v: list(range(n)) for v in range(n)}
+    stack, walk = [0], []
+    while stack:
+        v = stack[-1]
+        if nxt[v]:
+            stack.append(nxt[v].pop())
+        else:
+            walk.append(stack.pop())
+    return list(reversed(walk))
+
+
 def small_desc(nodes, roots, kind=0):
     d = NDesc()
     d.nodes = nodes
@@ -304,11 +318,15 @@ def small_desc(nodes, roots, kind=0):
     d.mcbs = [len(nodes) + 1]
     d.kind = kind
     n = len(nodes)
-    # single transitions: from the configuration reached by entering Y, go to Z — for all Y, Z
-    for y in range(n):
-        for z in range(n):
-            d.history.append(('to', y))
-            d.history.append(('to', z))
+    if n <= 4:
+        # single transitions: from the configuration reached by entering Y, go to Z — for all Y, Z
+        for y in range(n):
+            for z in range(n):
+                d.history.append(('to', y))
+                d.history.append(('to', z))
+    else:
+        # the same pairs (to_Y directly followed by to_Z) along one closed walk: n*n + 1 transitions
+        d.history = [('to', v) for v in euler_walk(n)]
     return d
 
 
@@ -366,12 +384,18 @@ class NRun(object):
         self.cur = None
         self.log = []
         self.model = _Model()
+        self._snaps = {}
         self.is_async = desc.kind == 1
         self.machine = self.build()
 
     # -- recorders ---------------------------------------------------------------------------
     def snap(self):
-        return freeze(parse_state(getattr(self.model, 'state')))
+        v = getattr(self.model, 'state')
+        key = repr(v)
+        fr = self._snaps.get(key)
+        if fr is None:
+            fr = self._snaps[key] = freeze(parse_state(v))
+        return fr
 
     def rec(self, make, cb=None):
         run = self
